@@ -20,7 +20,11 @@ macro_rules! registry {
 }
 
 registry! {
+    "BENCH" => bench,
+    "C03" => c03,
+    "C04" => c04,
     "C06" => c06,
+    "C21" => c21,
     "C07" => c07,
     "C11" => c11,
     "C12" => c12,
